@@ -58,7 +58,10 @@ def run(sh):
         decimal = i % 4 == 3
         bigint = i % 12 == 5
         ops = engine_evq.random_ops(rng, decimal=decimal, pause_centric=True,
-                                    aim_pauses=decimal or bigint or rng.random() < 0.3, bigint=bigint)
+                                    aim_pauses=decimal or bigint or rng.random() < 0.3, bigint=bigint,
+                                    mass=(i % 40 == 9))
+        if i % 40 == 9:
+            sh.count('mass_sequences')
         if bigint:
             sh.count('integer_clock_sequences')
         tie = ties.POLICIES[i % 4]     # prng, fifo, lifo, const
